@@ -161,7 +161,10 @@ class Chain:
         finally:
             tp._stripped_indents = real
         if len(captured) != 1:
-            raise RuntimeError("_stacked did not call _stripped_indents exactly once (%d)" % len(captured))
+            # this tree's _stacked does not obtain its line source through the module attribute _stripped_indents: the inner
+            # generator cannot be observed (state() then refuses and the search falls back to reference-machine states)
+            self.inner = False
+            return r
         self.inner = captured[0]
         return r
 
@@ -172,6 +175,8 @@ class Chain:
             return ERROR
         if last[0] == "end":
             return END
+        if self.inner is False:
+            raise LayoutChanged("_stacked does not call the module's _stripped_indents")
         fo, fi = self.outer.gi_frame, self.inner.gi_frame
         lo, li = fo.f_locals, fi.f_locals
         try:
@@ -244,6 +249,32 @@ def refinement_holds(state, machine):
     return cols == machine.columns() and tuple(stack) == machine.path() and curr == cols[-1] - g and g == machine.base
 
 
+_REF_STATES = [None]      # set to the reason once the generator frames could not be read in this tree
+
+
+def state_of(chain, ref, last):
+    """the state the search de-duplicates on: the implementation's own (the generator frames' locals).  When this tree keeps
+    that state somewhere the harness cannot read by name (a refactoring may move it into an object), the image of the
+    REFERENCE machine's state under the refinement map is used instead: the search is then closed with respect to the
+    reference's states - still every (state, event) pair is run on the real chain and compared - and is reported as
+    not exhaustive, because implementation states the reference does not distinguish would be merged."""
+    if _REF_STATES[0] is None:
+        try:
+            return chain.state(last)
+        except (LayoutChanged, AttributeError, TypeError) as e:
+            _REF_STATES[0] = "%s: %s" % (type(e).__name__, e)
+    if last is None:
+        return INIT
+    if last[0] in ("error", "crash"):
+        return ERROR
+    if last[0] == "end":
+        return END
+    cols, g = ref.columns(), ref.base
+    if g is None:
+        return ((), 0, None, tuple(ref.path()))
+    return (tuple(b - a for a, b in zip(cols, cols[1:])), cols[-1] - g, g, tuple(ref.path()))
+
+
 def run_history(history, event, report, ctx=None, expect_state=None):
     """Rebuild the state reached by `history` on a fresh chain (+ fresh reference), apply `event`, compare.
     -> (new_state, label, nontrivial)"""
@@ -253,7 +284,7 @@ def run_history(history, event, report, ctx=None, expect_state=None):
     for ev in history:
         last = chain.step(ev)
         ref_step(ref, ev)
-    before = chain.state(last)
+    before = state_of(chain, ref, last)
     if expect_state is not None and before != expect_state:
         report({"part": "bfs", "kind": "replay-nondeterministic"}, {"part": "bfs", "history": history, "event": event},
                "replaying the history gave %r, recorded %r" % (before, expect_state))
@@ -266,7 +297,7 @@ def run_history(history, event, report, ctx=None, expect_state=None):
         ctx.evals += 1
         ctx.transitions += 1
         ctx.extra["replay_steps"] += len(history)
-    after = chain.state(got)
+    after = state_of(chain, ref, got)
     bad = compare_step(got, exp, "bfs")
     if bad is None and (chain.src.buf or chain.src.fed - fed0 != len(event)):
         bad = ("laziness", "chain consumed %d of %d lines of the event" % (chain.src.fed - fed0, len(event)))
@@ -344,6 +375,14 @@ def _core_states():
 
 
 def run_bfs(block, ctx):
+    try:
+        _run_bfs(block, ctx)
+    finally:
+        if _REF_STATES[0] is not None:
+            ctx.capped = True      # closure is relative to the reference's states only: not called exhaustive
+
+
+def _run_bfs(block, ctx):
     core = core_states()
     if core.get("layout_changed"):
         # not a verdict about the property: the state abstraction does not fit this tree; reported as not exhaustive
@@ -353,6 +392,11 @@ def run_bfs(block, ctx):
             ctx.outcomes["bfs-skipped:generator-frame-layout-changed"] += 1
         return
     hist = dict(core["hist"])
+    if _REF_STATES[0] is not None:
+        if block["i"] == 0:
+            ctx.notes.append("BFS part: the generator frames could not be read in this tree (%s); states are those of the "
+                             "reference machine, every (state, event) pair still runs on the real chain" % _REF_STATES[0])
+            ctx.outcomes["bfs:states-of-the-reference-machine"] += 1
     if block["i"] == 0:
         ctx.extra["core_prepass_states"] += len(core["order"])
         ctx.extra["core_prepass_transitions"] += core["transitions"]
@@ -398,7 +442,7 @@ def run_bfs(block, ctx):
             last = None
             for ev in h:
                 last = chain.step(ev)
-            if chain.state(last) not in (ERROR, END):
+            if last is None or last[0] not in ("error", "crash", "end"):
                 continue
             again = chain.step(["a"])
             ctx.evals += 1
